@@ -262,6 +262,19 @@ func (w *World) Named(pkg, name string) *types.Named {
 	panic(anchorErr{"type " + pkg + "." + name})
 }
 
+// NamedOpt is Named for optional types (nil when absent).
+func (w *World) NamedOpt(pkg, name string) *types.Named {
+	p := w.ByPkg[pkgPath(pkg)]
+	if p != nil {
+		if o := p.Types.Scope().Lookup(name); o != nil {
+			if n, ok := o.Type().(*types.Named); ok {
+				return n
+			}
+		}
+	}
+	return nil
+}
+
 // Field resolves a struct field object.
 func (w *World) Field(pkg, typ, field string) *types.Var {
 	n := w.Named(pkg, typ)
